@@ -181,8 +181,80 @@ class Fn:
     def dominates(self, a, b):
         return a in self.dom_set(b)
 
+    # ---- correlated temporaries ------------------------------------------------------------------
+    def _corr(self):
+        """Result / bool temporaries with several constant definitions that are later branched on: the shape of
+        `let r = if c { Err(..) } else { Ok(..) }; r?`, of `matches!`, and of the return value of a helper inlined by
+        vlib/inline.py. Returns (sets, switches): sets[b] = [(local, value | None | ('copy', src))] in statement order,
+        switches[b] = (local, {value: target block})."""
+        if getattr(self, "_corr_cache", None) is not None:
+            return self._corr_cache
+        pa = Prov(None, "alias")
+        cand = {}
+        for loc, ds in self.defs().items():
+            if loc == 0 or len(ds) < 2:
+                continue
+            vals = []
+            for bi, si, kind, payload in ds:
+                if kind != "assign":
+                    vals = None
+                    break
+                rv = payload
+                if rv[0] == "agg" and rv[1].endswith("result::Result"):
+                    vals.append(rv[2])
+                elif rv[0] == "use" and rv[1][0] == "k" and rv[1][1].get("ty") == "bool" and "int" in rv[1][1]:
+                    vals.append(bool(int(rv[1][1]["int"])))
+                else:
+                    vals = None
+                    break
+            if vals:
+                cand[loc] = set(vals)
+        switches = {}
+        if cand:
+            for bi, b in enumerate(self.blocks):
+                t = b["t"]
+                if t[0] != "switch":
+                    continue
+                r = pa.root(self, t[1])
+                neg = False
+                while r[0] == "not":
+                    neg = not neg
+                    r = r[1]
+                cases = [(v, tb) for v, tb in t[2]]
+                other = t[3]
+
+                def tgt(n):
+                    for v, tb in cases:
+                        if int(v) == n:
+                            return tb
+                    return other
+                if r[0] == "local" and not r[3] and r[1] in cand and cand[r[1]] <= {True, False}:
+                    switches[bi] = (r[1], {True: tgt(0 if neg else 1), False: tgt(1 if neg else 0)})
+                elif r[0] == "discr" and r[1][0] == "local" and not r[1][3] and r[1][1] in cand and (r[2] or "").endswith("result::Result"):
+                    switches[bi] = (r[1][1], {"Ok": tgt(0), "Err": tgt(1)})
+                elif r[0] == "discr" and r[1][0] == "call" and not r[1][3] and re.search(r"as std::ops::Try>::branch$", r[1][1]):
+                    a = pa.root(self, self.blocks[r[1][2]]["t"][2][0])
+                    if a[0] == "local" and not a[3] and a[1] in cand and cand[a[1]] <= {"Ok", "Err"}:
+                        switches[bi] = (a[1], {"Ok": tgt(0), "Err": tgt(1)})
+        used = {x for x, _ in switches.values()}
+        sets = {}
+        for loc in used:
+            for bi, si, kind, payload in self.defs()[loc]:
+                rv = payload
+                val = rv[2] if rv[0] == "agg" else bool(int(rv[1][1]["int"]))
+                sets.setdefault(bi, []).append((si, loc, val))
+        for bi in sets:
+            sets[bi] = [(loc, val) for si, loc, val in sorted(sets[bi])]
+        self._corr_cache = (sets, switches)
+        return self._corr_cache
+
     def reach_from(self, starts, avoid=()):
-        """blocks reachable from any of `starts` (inclusive) without entering a block in `avoid`"""
+        """blocks reachable from any of `starts` (inclusive) without entering a block in `avoid`. Path-sensitive for
+        correlated temporaries (see _corr): an edge of a switch on such a temporary is followed only with the value the
+        temporary was given on that path."""
+        sets, switches = self._corr()
+        if switches:
+            return self._reach_ps(starts, avoid, sets, switches)
         avoid = set(avoid)
         seen = set()
         work = [s for s in starts if s not in avoid]
@@ -195,6 +267,31 @@ class Fn:
                 if s not in avoid and s not in seen:
                     work.append(s)
         return seen
+
+    def _reach_ps(self, starts, avoid, sets, switches):
+        avoid = set(avoid)
+        seen = set()
+        work = [(s, ()) for s in starts if s not in avoid]
+        while work:
+            x, facts = work.pop()
+            if (x, facts) in seen:
+                continue
+            seen.add((x, facts))
+            if x in sets:
+                d = dict(facts)
+                for loc, val in sets[x]:
+                    d[loc] = val
+                facts = tuple(sorted(d.items(), key=repr))
+            succs = self.succ(x)
+            if x in switches:
+                loc, tg = switches[x]
+                v = dict(facts).get(loc, "?")
+                if v != "?" and v in tg:
+                    succs = [tg[v]]
+            for sx in succs:
+                if sx not in avoid and (sx, facts) not in seen:
+                    work.append((sx, facts))
+        return {b for b, _ in seen}
 
     def can_reach(self, a, b, avoid=()):
         return b in self.reach_from([a], avoid)
@@ -675,6 +772,10 @@ class Prov:
             q = t[1].get("q") or ""
             if t[2] and self.transparent(t[1]):
                 return self._wrap(self.root(fn, t[2][0], depth + 1, seen), fs)
+            # `x.unwrap_or(false)` / `unwrap_or(0)` is `x.unwrap_or_default()`
+            if self.mode == "value" and len(t[2]) == 2 and re.search(r"^std::(option::Option::<T>|result::Result::<T, E>)::unwrap_or$", q) \
+                    and t[2][1][0] == "k" and t[2][1][1].get("int") == "0":
+                return self._wrap(self.root(fn, t[2][0], depth + 1, seen), fs)
             return ("call", q, bi, fs)
         rv = payload
         kind = rv[0]
@@ -836,6 +937,10 @@ class Guard:
     __slots__ = ("fn", "b", "labels", "all_labels", "root", "neg", "line")
 
     def __init__(self, fn, b, labels, all_labels, root, neg):
+        # `a != b` is `!(a == b)`: one canonical form, so that `if x == 0 { .. }` and `if x != 0 { return }` read the same
+        if root[0] == "bin" and root[1] == "Ne":
+            root = ("bin", "Eq") + tuple(root[2:])
+            neg = not neg
         self.fn, self.b, self.labels, self.all_labels, self.root, self.neg = fn, b, labels, all_labels, root, neg
         t = fn.blocks[b]["t"]
         self.line = t[4] if len(t) > 4 else 0
@@ -862,7 +967,8 @@ class Guard:
             return True
         if r[0] == "call":
             c = Call(self.fn, r[2])
-            return bool(c.exp) or "tracing" in r[1]
+            # `?`, `for` and `matches!` are desugarings too, but they carry program conditions
+            return "tracing" in r[1] or (bool(c.exp) and not re.search(r"Try>::branch$|Iterator|PartialEq|PartialOrd", r[1]))
         if r[0] == "discr" and r[1][0] == "call":
             return "tracing" in r[1][1]
         return False
